@@ -1,8 +1,10 @@
 /-
   C11 — RLP is a canonical, total and bounded codec.  Property theorems only (helpers live in Aqv/Lemmas).
-  Model: Aqv.Model.Rlp (enc = rlp/encode.go, dec = the strict rules of rlp/decode.go and rlp/raw.go).
+  Model: Aqv.Model.Rlp (enc = rlp/encode.go, dec = the strict rules of rlp/decode.go and rlp/raw.go) and
+  Aqv.Model.RlpTyped (decTy/encTy = the typed decoders and writers that makeDecoder/makeWriter select per Go type).
 -/
 import Aqv.Lemmas.RlpCanon
+import Aqv.Lemmas.RlpTyped
 namespace Aqv.Props.C11
 open Aqv Aqv.Rlp
 
@@ -64,5 +66,168 @@ example : dec (enc (Item.list [.str [0x80], .list [], .str [1, 2, 3]])) =
 example : dec [0x81, 0x05] = .error .canonSize := by rfl
 example : dec [0xb8, 0x01, 0xff] = .error .canonSize := by rfl
 example : dec [0xc2, 0x81, 0x05] = .error .canonSize := by rfl
+
+/-- Totality of the untyped decoder: `dec` never reports the out-of-fuel outcome — fuel `3·len+1` always suffices,
+    so every byte string is either rejected with a proper error or decoded. -/
+theorem dec_total (bs : Bytes) : dec bs ≠ .error .fuel := dec_ne_fuel bs
+
+example : dec [0xc1] = .error .tooLarge := by rfl
+
+/-! ## Typed layer (Aqv.Model.RlpTyped): the decoders Go selects per target type -/
+
+/-- Typed round trip: for every supported type and every well-formed value of it (`WFVal`: uint fits its 8..64-bit
+    width, sizes < 2^64, `[n]byte` has n bytes, `[n]T` has n elements, one value per struct field, plain pointers
+    non-nil, an `rlp:"nil"` pointer is nil or points to something that does not encode to an empty value, a RawValue
+    is exactly one header+content, interface items well-sized) decoding its encoding — in front of any further
+    input — returns the value and leaves exactly that further input. -/
+theorem typed_dec_enc (ty : Ty) (v : Val) (h : WFVal ty v = true) (rest : Bytes) :
+    decTy ty (encTy ty v ++ rest) = .ok (v, rest) :=
+  decTy_encTy ty v h rest
+
+/-- … and the top-level corollary for `DecodeBytes`. -/
+theorem typed_dec_enc_top (ty : Ty) (v : Val) (h : WFVal ty v = true) : decTop ty (encTy ty v) = .ok v := by
+  unfold decTop
+  have := decTy_encTy ty v h []
+  rw [List.append_nil] at this
+  rw [this]
+
+/-- Typed canonicity: for every canonical type (`Ty.canon`: all of the universe INCLUDING `raw`, except `rlp:"nil"`
+    pointers to pointers / to RawValue, see `typed_nil_ptr_ptr_two_encodings_witness`), whatever the typed decoder
+    accepts is exactly the encoder's output for the value it returns, followed by the unread rest. -/
+theorem typed_enc_dec (ty : Ty) (hc : ty.canon = true) (bs : Bytes) (v : Val) (rest : Bytes)
+    (h : decTy ty bs = .ok (v, rest)) : bs = encTy ty v ++ rest :=
+  (decTy_canon ty hc bs v rest h).1
+
+/-- … the value the decoder returns is always well-formed (so it round-trips again). -/
+theorem typed_decoded_wf (ty : Ty) (hc : ty.canon = true) (bs : Bytes) (v : Val) (rest : Bytes)
+    (h : decTy ty bs = .ok (v, rest)) : WFVal ty v = true :=
+  (decTy_canon ty hc bs v rest h).2
+
+/-- … and the top-level corollary: `DecodeBytes` accepts only the encoding of the value it returns. -/
+theorem typed_enc_dec_top (ty : Ty) (hc : ty.canon = true) (bs : Bytes) (v : Val) (h : decTop ty bs = .ok v) :
+    encTy ty v = bs := by
+  unfold decTop at h
+  split at h
+  · rename_i v' hd
+    simp only [Except.ok.injEq] at h
+    subst h
+    have := (decTy_canon ty hc bs _ _ hd).1
+    rw [List.append_nil] at this
+    exact this.symm
+  · simp at h
+  · simp at h
+
+/-- One accepted encoding per typed value (what block and transaction hashes rely on). -/
+theorem typed_one_encoding_per_value (ty : Ty) (hc : ty.canon = true) (b₁ b₂ : Bytes) (v : Val)
+    (h₁ : decTop ty b₁ = .ok v) (h₂ : decTop ty b₂ = .ok v) : b₁ = b₂ := by
+  rw [← typed_enc_dec_top ty hc b₁ v h₁, ← typed_enc_dec_top ty hc b₂ v h₂]
+
+/-- The typed encoder is injective on well-formed values of one type. -/
+theorem typed_enc_injective (ty : Ty) (a b : Val) (ha : WFVal ty a = true) (hb : WFVal ty b = true)
+    (h : encTy ty a = encTy ty b) : a = b := by
+  have h1 := typed_dec_enc_top ty a ha
+  have h2 := typed_dec_enc_top ty b hb
+  rw [h] at h1
+  rw [h1] at h2
+  simpa using h2
+
+/-- Typed totality: decoding any byte string into any type returns a value or a proper error, never the
+    out-of-fuel outcome.  `decTy` recurses structurally on the type; its only input-driven loop (slice elements) is
+    fuelled with the payload length and `interface{}` targets with `3·len+1` — both always suffice. -/
+theorem typed_decode_total (ty : Ty) (bs : Bytes) : decTy ty bs ≠ .error (.rlp .fuel) :=
+  decTy_ne_fuel ty bs
+
+theorem typed_decode_total_top (ty : Ty) (bs : Bytes) : decTop ty bs ≠ .error (.rlp .fuel) := by
+  unfold decTop
+  have := decTy_ne_fuel ty bs
+  split
+  · simp
+  · simp
+  · rename_i e he; intro h; simp only [Except.error.injEq] at h; subst h; exact this he
+
+/-- Bounded/progress: a successful typed decode consumes at least one byte and never more than the input. -/
+theorem typed_decode_consumes (ty : Ty) (bs : Bytes) (v : Val) (rest : Bytes) (h : decTy ty bs = .ok (v, rest)) :
+    rest.length < bs.length :=
+  decTy_consumes ty bs v rest h
+
+/-- Bounded: the decoded typed value re-encodes to exactly the input, so its content is no larger than the input. -/
+theorem typed_decoded_size_eq_input (ty : Ty) (hc : ty.canon = true) (bs : Bytes) (v : Val) (h : decTop ty bs = .ok v) :
+    (encTy ty v).length = bs.length := by
+  rw [typed_enc_dec_top ty hc bs v h]
+
+/-- The item view of typed values (what the harness renders and the driver's Spec judgement re-encodes): for every
+    type and value the item `toG ty v` encodes to exactly the typed encoding — typed values are items, and typed
+    canonicity is item canonicity seen through `toG`. -/
+theorem typed_item_view (ty : Ty) (v : Val) : (toG ty v).enc = encTy ty v := toG_enc ty v
+
+/-- … hence a typed decode is canonical at the item level: the item view of the decoded value re-encodes to the input. -/
+theorem typed_item_view_canonical (ty : Ty) (hc : ty.canon = true) (bs : Bytes) (v : Val) (h : decTop ty bs = .ok v) :
+    (toG ty v).enc = bs := by
+  rw [toG_enc, typed_enc_dec_top ty hc bs v h]
+
+/-- Why `Ty.canon` excludes `rlp:"nil"` pointers to pointers: Go's makeOptionalPtrDecoder keeps `strict = false`
+    for them, so both empty values decode to nil — two accepted encodings of one value (no type in /repo has this shape). -/
+theorem typed_nil_ptr_ptr_two_encodings_witness :
+    decTop (.struct [.ptrNil (.ptr (.uint 64))]) [0xc1, 0x80] = .ok (.list [.pnil]) ∧
+    decTop (.struct [.ptrNil (.ptr (.uint 64))]) [0xc1, 0xc0] = .ok (.list [.pnil]) ∧
+    (Ty.struct [.ptrNil (.ptr (.uint 64))]).canon = false := by
+  refine ⟨by rfl, by rfl, by rfl⟩
+
+/-! ### non-vacuity: the consensus shapes -/
+
+/-- the shape of `types.txdata`. -/
+def txTy : Ty := .struct [.uint 64, .big, .uint 64, .ptrNil (.bytesN 20), .big, .bytes, .big, .big, .big]
+/-- the shape of `types.Header` (the `rlp:"-"` Version field is absent). -/
+def headerTy : Ty :=
+  .struct [.bytesN 32, .bytesN 32, .bytesN 20, .bytesN 32, .bytesN 32, .bytesN 32, .bytesN 256, .big, .big,
+           .uint 64, .uint 64, .big, .bytes, .bytesN 32, .bytesN 8]
+/-- the shape of `types.extblock`. -/
+def blockTy : Ty := .struct [.ptr headerTy, .list (.ptr txTy), .list (.ptr headerTy)]
+
+def txCreate : Val :=
+  .list [.num 1, .num 1000000000, .num 21000, .pnil, .num 5, .bytes [1, 2, 3], .num 27, .num 77777, .num 0]
+def txCall : Val :=
+  .list [.num 0, .num 300, .num 0xffffffffffffffff, .psome (.bytes (List.replicate 20 0)), .num 0, .bytes [],
+         .num 28, .num 1, .num 2]
+def hdrVal : Val :=
+  .list [.bytes (List.replicate 32 1), .bytes (List.replicate 32 2), .bytes (List.replicate 20 0),
+         .bytes (List.replicate 32 4), .bytes (List.replicate 32 5), .bytes (List.replicate 32 6),
+         .bytes (List.replicate 256 0), .num 131072, .num 7, .num 4712388, .num 0, .num 1537000000,
+         .bytes [0x61, 0x71], .bytes (List.replicate 32 0), .bytes [0, 0, 0, 0, 0, 0, 0, 42]]
+
+example : txTy.canon = true ∧ headerTy.canon = true ∧ blockTy.canon = true := by decide
+example : WFVal txTy txCreate = true := by decide
+example : WFVal txTy txCall = true := by decide
+set_option maxRecDepth 8000 in
+example : WFVal headerTy hdrVal = true := by rfl
+set_option maxRecDepth 8000 in
+example : WFVal blockTy (.list [.psome hdrVal, .list [.psome txCreate, .psome txCall], .list []]) = true := by rfl
+example : decTop txTy (encTy txTy txCreate) = .ok txCreate := by rfl
+example : decTop txTy (encTy txTy txCall) = .ok txCall := by rfl
+example : (toG txTy txCreate).render = "[s01,s3b9aca00,s5208,s,s05,s010203,s1b,s012fd1,s]" := by decide
+set_option maxRecDepth 8000 in
+example : decTop headerTy (encTy headerTy hdrVal) = .ok hdrVal := by rfl
+-- two distinct well-formed transactions (hypotheses of `typed_enc_injective`) with distinct encodings
+example : encTy txTy txCreate ≠ encTy txTy txCall := by decide
+-- the recipient of a transaction: only 0x80 is nil (fix 7811107); 0xC0 is the wrong kind of empty value
+example : decTop txTy [0xc9, 0x80, 0x80, 0x80, 0x80, 0x80, 0x80, 0x80, 0x80, 0x80] =
+    .ok (.list [.num 0, .num 0, .num 0, .pnil, .num 0, .bytes [], .num 0, .num 0, .num 0]) := by rfl
+example : decTop txTy [0xc9, 0x80, 0x80, 0x80, 0xc0, 0x80, 0x80, 0x80, 0x80, 0x80] = .error .wrongEmpty := by rfl
+-- integers: leading zero / single zero byte / wrapped small byte / overflow are rejected
+example : decTop .big [0x82, 0x00, 0x01] = .error .canonInt := by rfl
+example : decTop (.uint 64) [0x00] = .error .canonInt := by rfl
+example : decTop (.uint 64) [0x81, 0x05] = .error (.rlp .canonSize) := by rfl
+example : decTop (.uint 8) [0x82, 0x01, 0x00] = .error .overflow := by rfl
+example : decTop .bool [0x02] = .error .badBool := by rfl
+-- [1]byte takes a single byte as its value, including 0x00 (fix 613896f); [3]uint16 needs exactly three elements
+example : decTop (.list (.bytesN 1)) [0xc2, 0x00, 0x01] = .ok (.list [.bytes [0], .bytes [1]]) := by rfl
+example : decTop (.arr 3 (.uint 16)) [0xc2, 0x01, 0x02] = .error .tooFew := by rfl
+example : decTop (.arr 3 (.uint 16)) [0xc4, 0x01, 0x02, 0x03, 0x04] = .error .tooMany := by rfl
+-- RawValue: the inner content is not validated (0x8105 stays as it is), the header is
+example : decTop (.struct [.raw]) [0xc2, 0x81, 0x05] = .ok (.list [.bytes [0x81, 0x05]]) := by rfl
+example : decTop (.struct [.raw]) [0xc2, 0xb8, 0x00] = .error (.rlp .canonSize) := by rfl
+-- tail: the last field swallows the remaining elements
+example : decTop (.structTail [.uint 8] (.uint 16)) [0xc3, 0x01, 0x02, 0x03] =
+    .ok (.tail [.num 1] [.num 2, .num 3]) := by rfl
 
 end Aqv.Props.C11
